@@ -5,7 +5,7 @@ from fractions import Fraction as F
 from .core import fr, frs, dhex, hexd
 from .runner import Case
 
-GROUP = dict(name='eig', sources=['h_eig.cpp'], repo_sources=['util/Pauli.C'], driver='eig')
+GROUP = dict(name='eig', sources=['h_eig.cpp'], repo_sources=['util/Pauli.C'], driver='eig', thread_mode=True)
 
 
 def hexes(xs): return ' '.join(dhex(x) for x in xs)
